@@ -53,6 +53,8 @@ Put(m, k, v) == PutR(m, k, v, 1)        \* IndexMap::insert: replaces in place, 
 ServingsOf(v) == CASE v = "2" -> <<2>> [] v = "4" -> <<4>> [] v = "2|4" -> <<2, 4>> [] v = "3 cups" -> <<3>> [] v = "6|2" -> <<6, 2>>
                    [] v = "4 | 2 | 8" -> <<4, 2, 8>> [] OTHER -> <<>>
 BadServings(v) == ServingsOf(v) = <<>>
+\* StdKey::Servings has three spellings; whichever entry comes last sets the servings
+IsServingsKey(k) == k \in {"servings", "serves", "yield"}
 AMeta(a, k, v) ==
   IF "MODES" \in Ext /\ IsConfigKey(k)
   THEN CASE k \in {"[mode]", "[define]"} ->
@@ -68,17 +70,20 @@ AMeta(a, k, v) ==
          [] OTHER -> LET a2 == AddDiags(a, <<W("UnknownConfigKey")>>)
                      IN IF a.oldStyle THEN [a2 EXCEPT !.meta = Put(@, k, v)] ELSE a2
   ELSE LET a2 == [a EXCEPT !.oldUsed = @ + 1, !.meta = Put(@, k, v)] IN
-       IF k = "servings"
+       IF IsServingsKey(k)
        THEN IF BadServings(v) THEN AddDiags(a2, <<W("UnsupportedStdValue")>>) ELSE [a2 EXCEPT !.servings = ServingsOf(v)]
        ELSE a2
 \* front matter: the whole mapping replaces the metadata; entries = seq of [k, v]; servings looked up the same way
+RECURSIVE FMServings(_, _, _)
+\* the entries are checked in order: every servings-like key either sets the servings or warns
+FMServings(a, entries, i) ==
+  IF i > Len(entries) THEN a
+  ELSE IF ~IsServingsKey(entries[i].k) THEN FMServings(a, entries, i + 1)
+  ELSE IF BadServings(entries[i].v) THEN FMServings(AddDiags(a, <<W("UnsupportedStdValue")>>), entries, i + 1)
+  ELSE FMServings([a EXCEPT !.servings = ServingsOf(entries[i].v)], entries, i + 1)
 AFrontMatter(a, entries, ok) ==
   IF ~ok THEN AddDiags([a EXCEPT !.oldStyle = FALSE], <<E("BadFrontMatter")>>)
-  ELSE LET sv == {i \in DOMAIN entries : entries[i].k = "servings"}
-           a2 == [a EXCEPT !.oldStyle = FALSE, !.meta = entries]
-       IN IF sv = {} THEN a2
-          ELSE LET v == entries[CHOOSE i \in sv : TRUE].v
-               IN IF BadServings(v) THEN AddDiags(a2, <<W("UnsupportedStdValue")>>) ELSE [a2 EXCEPT !.servings = ServingsOf(v)]
+  ELSE FMServings([a EXCEPT !.oldStyle = FALSE, !.meta = entries], entries, 1)
 
 (* ---- sections and blocks ------------------------------------------------------------- *)
 SecEmpty(s) == s.name = "" /\ s.content = <<>>
